@@ -18,5 +18,6 @@ theorem fix_name_segment : @Generated.Funcs.fix_name_segment = @Pinned.Funcs.fix
 theorem fix_field_path : @Generated.Funcs.fix_field_path = @Pinned.Funcs.fix_field_path := rfl
 theorem field_header_disambiguated : @Generated.Funcs.field_header_disambiguated = @Pinned.Funcs.field_header_disambiguated := rfl
 theorem routing_param_disambiguated_field : @Generated.Funcs.routing_param_disambiguated_field = @Pinned.Funcs.routing_param_disambiguated_field := rfl
+theorem client_method_name : @Generated.Funcs.client_method_name = @Pinned.Funcs.client_method_name := rfl
 
 end GapicModel.Bridge.Funcs
